@@ -273,7 +273,9 @@ func Exits(fn *ssa.Function) []ssa.Instruction {
 func Returns(fn *ssa.Function) []*ssa.Return {
 	var out []*ssa.Return
 	for _, b := range fn.Blocks {
-		if len(b.Instrs) == 0 {
+		if len(b.Instrs) == 0 || b == fn.Recover {
+			// fn.Recover is the synthetic block that runs after a recovered
+			// panic; it returns whatever the result cells hold
 			continue
 		}
 		if r, ok := b.Instrs[len(b.Instrs)-1].(*ssa.Return); ok {
